@@ -227,6 +227,15 @@ def compare_logs(ctx, scripts, variant="plain", keep=False):
                     k, wops[k] if k < len(wops) else "?", arc[k] if k < len(arc) else None, mrc[k] if k < len(mrc) else None)
             else:
                 diff = first_difference(ilog, mlog, sigs24(s, arc))
+            st = getattr(ctx, "wm_stats", None)
+            if st is None:
+                st = ctx.wm_stats = {"programs": 0, "log_entries": 0, "bytes_written": 0, "largest_file": 0, "most_entries": 0}
+            fsz = max([e[1] + len(e[2]) for e in ilog if e[0] == "w"] or [0])
+            st["programs"] += 1
+            st["log_entries"] += len(ilog)
+            st["bytes_written"] += sum(len(e[2]) for e in ilog if e[0] == "w")
+            st["largest_file"] = max(st["largest_file"], fsz)
+            st["most_entries"] = max(st["most_entries"], len(ilog))
             if not keep:
                 os.unlink(p)
         res.append((s, diff))
@@ -500,6 +509,7 @@ def run_wm(ctx, n=None, scripts=None, variant="plain"):
                 ctx.violation("wm_case_%d.txt" % nv, replay_text(script, diff), "writer model and implementation differ: " + diff[:160])
     ctx.extra["distribution"] = dist
     ctx.extra["corpus_cases"] = len(corpus)
+    ctx.extra["wm_stats"] = getattr(ctx, "wm_stats", {})
     ctx.cov["rule"] = ("programs from WM.gen_case (sources, signals of all 15 types, min/small/default/odd definitions, block-relative call "
                        "sizes, gaps, overlaps, omission, constant blocks, annotations, UTC, user data, flush, rejected calls); the complete "
                        "backend log and every return code are compared; distinct = distinct scripts")
@@ -540,6 +550,6 @@ if __name__ == "__main__":
         bad = [(s, d) for s, d in res if d]
         for s, d in bad[:10]:
             print("DIFF: %s\n   script: %s\n" % (d, s if len(s) < 900 else s[:900] + "..."))
-        print("%d programs, %d differ, %.1fs" % (len(res), len(bad), time.time() - t0))
+        print("%d programs, %d differ, %.1fs; %s" % (len(res), len(bad), time.time() - t0, getattr(ctx, "wm_stats", {})))
     finally:
         ctx.cleanup()
